@@ -508,6 +508,34 @@ func checkCase(c Case) error {
 			}
 			st.appendList++
 			cur = after
+			if op.Kind != "appendlist" && len(after.lists) > 0 && len(after.lists[len(after.lists)-1].Entries) > 0 {
+				// both databases stay in use after the merge: an entry goes into the merged-in list through this database,
+				// then another one into the same list through the database it came from. Whether the two share the list or
+				// not is the library's business; the entry added here must still be here, and the database well-formed
+				lk := len(after.lists) - 1
+				lt := after.lists[lk].Type
+				tmpl := after.lists[lk].Entries[len(after.lists[lk].Entries)-1].Data
+				d1 := append([]byte{}, tmpl...)
+				d2 := append([]byte{}, tmpl...)
+				d1[len(d1)-1] ^= 0x55
+				d2[len(d2)-1] ^= 0xaa
+				if lt == unknownType || len(tmpl) == 0 || after.has(esl.Flat{Type: lt, Owner: owner, Data: d1}) || after.has(esl.Flat{Type: lt, Owner: owner, Data: d2}) {
+					hx.Excluded("merge_followup_not_applicable")
+				} else if err := (*db)[lk].AppendBytes(lo, d1); err != nil {
+					hx.Excluded("merge_followup_append_refused")
+				} else {
+					built[len(built)-1].AppendBytes(lo, d2)
+					again, serr := snapshot(db)
+					if serr != nil {
+						return fmt.Errorf("%s: after an append to the merged-in list through each of the two databases this one is inconsistent: %v", step, serr)
+					}
+					if !again.has(esl.Flat{Type: lt, Owner: owner, Data: d1}) {
+						return fmt.Errorf("%s: the entry appended to the merged-in list through this database is gone after an append to that list through the database it was merged from", step)
+					}
+					hx.Class("merge_then_append_through_both_databases")
+					cur = again
+				}
+			}
 		case "listappend":
 			if len(*db) == 0 {
 				continue
